@@ -1032,6 +1032,7 @@ func runC15(c *Ctx) {
 		c.Op("hash "+hx(p[0][:])+" "+hx(p[1][:]), fmt.Sprintf("%d %d", p[0].Hash(), p[1].Hash()))
 	}
 	// A. FNV model of device.ID.Hash against the real one (also on prefixes' worth of variety)
+	c15ChanProc(c) // top-level packets on a channel connection (c15_s3.go)
 	c.Cases("hash", c.N(300, 5000), func(r *Rng, i int) {
 		a, b := c15RandID(r), c15RandID(r)
 		if r.Chance(20) {
